@@ -168,7 +168,15 @@ func TestC18(t *testing.T) {
 		{"v4+v6", []string{"10.0.0.0/8", "fd00::/8"}, append([]string{"A", "A16", "V6ok"}, bad...)},
 		{"emptylist", []string{}, []string{"A", "A16", "X4", "X6"}},
 	}
-	rep.Bounds = map[string]any{"allowlists": []string{"10.0.0.0/8", "10.0.0.0/8+fd00::/8", "empty"}, "claimed_addresses": "allowed v4 (4- and 16-byte), allowed v6, disallowed v4/v4-mapped/v6, lengths 0,3,5,15,17", "incarnation_cap": 3}
+	if thorough() {
+		all := append([]string{"A", "A16", "B", "V6ok"}, bad...)
+		cfgs = append(cfgs,
+			cfg{"hosts32", []string{"10.0.0.1/32", "10.0.0.2/32", "10.0.0.9/32"}, all},
+			cfg{"v6-and-own-hosts", []string{"10.0.0.1/32", "10.0.0.9/32", "fd00::/8"}, all},
+			cfg{"any-v4", []string{"0.0.0.0/0"}, all},
+			cfg{"overlapping", []string{"10.0.0.0/8", "10.0.0.0/30", "fd00::/8", "fd00::/16"}, all})
+	}
+	rep.Bounds = map[string]any{"allowlists": []string{"10.0.0.0/8", "10.0.0.0/8+fd00::/8", "empty", "(thorough) /32 hosts, v6 + own hosts, 0.0.0.0/0, overlapping nets"}, "claimed_addresses": "allowed v4 (4- and 16-byte), allowed v6, disallowed v4/v4-mapped/v6, lengths 0,3,5,15,17", "incarnation_cap": 3}
 	rep.Rule = "BFS to fixpoint over canonical node states per allowlist; transitions = alive claims for every claimed address x carrier (packet from allowed/disallowed/pipe source, compound, compressed-compound, push/pull join and not) + claims about the node itself from disallowed addresses + state-changing events so that address change and name reclaim are driven from every prior state"
 	var rp swimReplay
 	replay := loadReplay(&rp)
